@@ -149,11 +149,39 @@ def producer(r, facts, pat, fetch_name, tag, more_edge):
     F = fetch[0]
     sends = b.calls_to("tokio::sync::mpsc::bounded::Sender::<T>::send")
     ok_sends, err_sends = [], []
+
+    def payload_variants(l, depth=0):
+        """which Result variants the payload local may hold: every definition, through whole-local copies (a payload chosen in
+        the arms of a match and sent by ONE send is both a page send and an error send)"""
+        out = set()
+        for d in b.defs.get(l, []):
+            if d[0] != "stmt":
+                out.add("?")
+            elif d[3][0] == "agg" and d[3][1][0] == "adt":
+                out.add(d[3][1][2])
+            elif d[3][0] == "use" and d[3][1][0] in ("c", "m") and not d[3][1][1][1] and depth < 6:
+                out |= payload_variants(d[3][1][1][0], depth + 1)
+            elif d[3][0] == "use" and d[3][1][0] in ("c", "m") and len(d[3][1][1][1]) == 1 and isinstance(d[3][1][1][1][0], list) \
+                    and d[3][1][1][1][0][0] == "f" and depth < 6:
+                # component k of a tuple built in the arms of a match: `let (item, more) = match .. { .. => (Ok(page), more), .. => (Err(e), No) }`
+                k = d[3][1][1][1][0][1]
+                got = False
+                for td in b.defs.get(d[3][1][1][0], []):
+                    if td[0] == "stmt" and td[3][0] == "agg" and td[3][1][0] == "tuple" and k < len(td[3][2]) and td[3][2][k][0] in ("c", "m"):
+                        out |= payload_variants(td[3][2][k][1][0], depth + 1)
+                        got = True
+                if not got:
+                    out.add("?")
+            else:
+                out.add("?")
+        return out
     for s in sends:
         a = s.args[1]
-        sd = b.single_def(a[1][0]) if a[0] in ("c", "m") else None
-        v = sd[3][1][2] if sd and sd[0] == "stmt" and sd[3][0] == "agg" and sd[3][1][0] == "adt" else None
-        (ok_sends if v == "Ok" else err_sends).append(s)
+        vs = payload_variants(a[1][0]) if a[0] in ("c", "m") else {"?"}
+        if "Ok" in vs:
+            ok_sends.append(s)
+        if vs - {"Ok"}:
+            err_sends.append(s)
     # an error must be handed over with the awaited `send` (back-pressure): `try_send` on the capacity-1 channel drops it
     # whenever the consumer has not yet taken the previous page, and the stream then ends as if it were complete
     lossy = []
@@ -183,6 +211,8 @@ def producer(r, facts, pat, fetch_name, tag, more_edge):
                 good = True
     r.instance(tag + ":closed-channel-stops", good, "if the consumer is gone (send failed) the producer must stop", S.span)
     for e in err_sends:
+        if e in ok_sends:
+            continue     # a combined page-or-error send: judged as the page send above (the channel test after it stops the producer)
         r.instance(tag + ":error-is-last:%d" % e.bb, F.bb not in b.reachable_after(e.bb) and not any(x.bb in b.reachable_after(e.bb) for x in sends if x.bb != e.bb),
                    "after an error was sent no further page is fetched or sent", e.span)
     # continue only on MorePages / Continue
